@@ -36,6 +36,10 @@ type Op struct {
 	Fail  bool  `json:"fail,omitempty"`
 	// which non-nil error a failing instrumented function returns (see execErrors)
 	ErrKind int `json:"errKind,omitempty"`
+	// stopwatch: Offset != 0 builds the stopwatch with tally.NewStopwatch from a caller-supplied start
+	// time, Offset ns BEFORE now (negative: a start time in the future); the elapsed time recorded by
+	// Stop is now - start whatever its sign
+	Offset int64 `json:"offset,omitempty"`
 }
 
 // a typed error whose Is() matches everything, and a nil pointer of it inside a non-nil interface
@@ -119,6 +123,9 @@ func gen(t *rapid.T) Case {
 				}
 			}
 			op.Fail = rapid.Bool().Draw(t, "fail")
+			if k == "stopwatch" && rapid.IntRange(0, 2).Draw(t, "given-start?") == 0 {
+				op.Offset = rapid.SampledFrom([]int64{int64(time.Hour), -int64(time.Hour), int64(time.Millisecond), -int64(50 * time.Millisecond), -int64(24 * 365 * time.Hour), 1}).Draw(t, "offset")
+			}
 			if op.Fail && k == "exec" {
 				op.ErrKind = rapid.IntRange(0, len(execErrors)-1).Draw(t, "errKind")
 			}
@@ -258,7 +265,13 @@ func run(c Case) (pbt.Outcome, error) {
 			}
 		case "stopwatch":
 			t0 := time.Now()
-			sw := timers[op.T].Start()
+			var sw tally.Stopwatch
+			given := false
+			if r, ok := timers[op.T].(tally.StopwatchRecorder); ok && op.Offset != 0 {
+				sw, given = tally.NewStopwatch(t0.Add(-time.Duration(op.Offset)), r), true
+			} else {
+				sw = timers[op.T].Start()
+			}
 			t1 := time.Now()
 			if op.Pause > 0 {
 				time.Sleep(time.Duration(op.Pause) * time.Microsecond)
@@ -267,6 +280,9 @@ func run(c Case) (pbt.Outcome, error) {
 			sw.Stop()
 			t3 := time.Now()
 			lo, hi := t2.Sub(t1), t3.Sub(t0)
+			if given {
+				lo, hi = time.Duration(op.Offset)+t2.Sub(t0), time.Duration(op.Offset)+t3.Sub(t0)
+			}
 			distinctTimers[timerID(op.T)] = true
 			if c.Mode != "test" {
 				ev := timerEvents(before)
